@@ -14,7 +14,7 @@ def analyse_redraw(crate, g, meth):
     args, objs = symbolic_args(ev, st, body)
     ret = ev.call_body(st, key, args)
     # the redraw loop may live in a private helper shared by from_rng and try_from_rng: every loop of the inlined evaluation counts
-    recs = list(ev.loops_log)
+    recs = [r_ for r_ in ev.loops_log if not r_.closed]
     return key, body, ev, st, ret, recs
 
 
